@@ -36,9 +36,9 @@ Definition holds (p : pc) : bool :=
   match p with
   | P_alloc _ | P_constr _ _ | P_ld _ _ | P_e1 _ _ | P_e2 _ | PF_next _ _ | PF_back _ _ | PF_head _
   | PB_back _ _ | PB_next _ _ | PB_tail _ | P_unlock
-  | E_ld0 _ _ | E_ldb _ _ _ | E_ldn _ _ _ _ | E_s1 _ _ _ _ _ | E_s2 _ _ _ _ _ | E_alloc _ _ _
+  | E_ld0 _ _ | E_ldb _ _ _ _ | E_ldn _ _ _ _ _ | E_s1 _ _ _ _ _ _ | E_s2 _ _ _ _ _ _ | E_alloc _ _ _
   | E_constr _ _ _ _ | E_ldz _ _ _ | E_stz _ _ _ _ | E_cas _ _ _ _ | E_unlock _ _
-  | PX_alloc | PX_constr _ | PX_free _ | PX_unl => true
+  | PX_alloc | PX_constr _ | PX_free _ | PX_unl | PA_fail | EF_ld0 _ _ | EF_alloc => true
   | _ => false
   end.
 Definition priv_node (p : pc) : option nat :=
@@ -49,11 +49,12 @@ Definition priv_node (p : pc) : option nat :=
 Definition priv_rec (p : pc) : option nat :=
   match p with
   | R_constr _ z | R_ldh _ z | R_st _ z _ | R_cas _ z _
-  | E_constr _ _ _ z | E_ldz _ _ z | E_stz _ _ z _ | E_cas _ _ z _ => Some z
+  | E_constr _ _ _ z | E_ldz _ _ z | E_stz _ _ z _ | E_cas _ _ z _
+  | E_ldb _ _ _ z | E_ldn _ _ _ _ z | E_s1 _ _ _ _ _ z | E_s2 _ _ _ _ _ z => Some z
   | _ => None
   end.
 Definition erasing (p : pc) : option nat :=
-  match p with E_ldb _ c _ | E_ldn _ c _ _ | E_s1 _ c _ _ _ => Some c | _ => None end.
+  match p with E_ldb _ c _ _ | E_ldn _ c _ _ _ | E_s1 _ c _ _ _ _ => Some c | _ => None end.
 Definition in_unlock (p : pc) : bool :=
   match p with
   | U_ld | U_own _ _ | U_nx _ _ | U_dd _ _ | U_df _ _ | U_ln _ | U_zd _ _ | U_zf _ _ | U_stn | U_sto => true
@@ -62,8 +63,8 @@ Definition in_unlock (p : pc) : bool :=
 Definition o2l (o : option nat) : list nat := match o with Some k => [k] | None => [] end.
 Definition pc_refs (p : pc) : list nat :=
   match p with
-  | N_ld _ c | D_rd _ c | E_lock _ c | E_ld0 _ c => [c]
-  | E_ldb _ c nx0 | E_ldn _ c nx0 _ | E_s1 _ c nx0 _ _ | E_s2 _ c nx0 _ _ | E_alloc _ c nx0 | E_constr _ c nx0 _ => c :: o2l nx0
+  | N_ld _ c | D_rd _ c | E_lock _ c | E_ld0 _ c | EF_lock _ c | EF_ld0 _ c => [c]
+  | E_ldb _ c nx0 _ | E_ldn _ c nx0 _ _ | E_s1 _ c nx0 _ _ _ | E_s2 _ c nx0 _ _ _ | E_alloc _ c nx0 | E_constr _ c nx0 _ => c :: o2l nx0
   | E_ldz _ nx0 _ | E_stz _ nx0 _ _ | E_cas _ nx0 _ _ | E_unlock _ nx0 => o2l nx0
   | _ => []
   end.
@@ -181,9 +182,9 @@ Definition hold_ok (g : glob) (p : pc) : Prop :=
   | PB_back n old => fresh_node g (PushBack 0) n /\ last_opt (lst g) = Some old
   | PB_next n old => isnode g n = true /\ ~ In n (lst g) /\ nx g n = None /\ bk g n = Some old /\ dl g n = false /\
                      ps g n = hi g /\ strictB g n /\ last_opt (lst g) = Some old
-  | E_ldb _ c _ => In c (lst g) /\ dl g c = true
-  | E_ldn _ c _ pv => dl g c = true /\ exists l1 l2, lst g = l1 ++ c :: l2 /\ pv = last_opt l1
-  | E_s1 _ c _ pv nxt => dl g c = true /\ exists l1 l2, lst g = l1 ++ c :: l2 /\ pv = last_opt l1 /\ nxt = hd_opt l2
+  | E_alloc _ c _ | E_constr _ c _ _ | E_ldb _ c _ _ => In c (lst g) /\ dl g c = false
+  | E_ldn _ c _ pv _ => dl g c = true /\ exists l1 l2, lst g = l1 ++ c :: l2 /\ pv = last_opt l1
+  | E_s1 _ c _ pv nxt _ => dl g c = true /\ exists l1 l2, lst g = l1 ++ c :: l2 /\ pv = last_opt l1 /\ nxt = hd_opt l2
   | _ => True
   end.
 (* back pointers and m_tail, with the windows in which the holder has not yet repaired them *)
@@ -192,7 +193,7 @@ Definition back_ok (g : glob) (p : pc) : Prop :=
   | PF_head n => bwdl g (Some n) (lst g) /\ tail g = last_opt (lst g)
   | P_e2 n => lst g = [n] /\ bk g n = None /\ tail g = None
   | PB_tail n => bwdl g None (lst g) /\ exists l0, lst g = l0 ++ [n] /\ tail g = last_opt l0
-  | E_s2 _ c _ pv nxt => isnode g c = true /\ dl g c = true /\ ~ In c (lst g) /\
+  | E_s2 _ c _ pv nxt _ => isnode g c = true /\ dl g c = true /\ ~ In c (lst g) /\
                          exists l1 l2, lst g = l1 ++ l2 /\ pv = last_opt l1 /\ nxt = hd_opt l2 /\
                                        bwdl g None l1 /\ bwdl g (Some c) l2 /\ tail g = last_or l2 (Some c)
   | _ => bwdl g None (lst g) /\ tail g = last_opt (lst g)
@@ -231,7 +232,8 @@ Record InvA (g : glob) (ls : list loc) : Prop := {
 Definition plain (p : pc) : bool :=
   match p with
   | P_constr _ _ | P_ld _ _ | P_e1 _ _ | P_e2 _ | PF_next _ _ | PF_back _ _ | PF_head _
-  | PB_back _ _ | PB_next _ _ | PB_tail _ | E_ldb _ _ _ | E_ldn _ _ _ _ | E_s1 _ _ _ _ _ | E_s2 _ _ _ _ _ => false
+  | PB_back _ _ | PB_next _ _ | PB_tail _ | E_ldb _ _ _ _ | E_ldn _ _ _ _ _ | E_s1 _ _ _ _ _ _ | E_s2 _ _ _ _ _ _
+  | E_alloc _ _ _ | E_constr _ _ _ _ => false
   | _ => true
   end.
 Lemma GS_plain g p p' : plain p = true -> plain p' = true -> GS g p -> GS g p'.
@@ -958,31 +960,47 @@ Qed.
 
 (* ---------- erase ---------- *)
 (* erase of an already erased node: the sequential no-op *)
-Lemma step_E_ld0_noop g it c :
-  GS g (E_ld0 it c) -> pubn g c -> dl g c = true ->
+Lemma step_E_ld0_noop g p0 c : GS g p0 -> plain p0 = true ->
+  pubn g c -> dl g c = true ->
   ~ In c (lst g) /\ forall p', plain p' = true -> GS (commit g (MErase c)) p' /\ mono g (commit g (MErase c)).
 Proof.
-  intros G Hc Hd.
+  intros G Hp0 Hc Hd.
   assert (Hnl : ~ In c (lst g)).
-  { intros Hi. pose proof (gs_del _ _ G c Hi Hd) as E. discriminate. }
+  { intros Hi. pose proof (gs_del _ _ G c Hi Hd) as E. destruct p0; discriminate. }
   split; [exact Hnl|]. intros p' Hp'.
   assert (S : sameN g (commit g (MErase c))).
   { constructor; try reflexivity.
     - cbn. apply remove_nat_notin. exact Hnl.
     - intros H. cbn [lst mlog commit]. rewrite fold_apply_app, <- H. reflexivity. }
   split; [|apply mono_sameN; exact S].
-  apply (GS_plain _ (E_ld0 it c) p' eq_refl Hp').
-  eapply GS_sameN; [exact S|exact G|intros k E; discriminate|intros k E; discriminate| |exact I].
-  cbn [back_ok]. pose proof (gs_back _ _ G) as Hb. cbn [back_ok] in Hb. destruct Hb as [A B].
+  apply (GS_plain _ Idle p' eq_refl Hp').
+  eapply GS_sameN; [exact S|apply (GS_plain _ p0 Idle Hp0 eq_refl G)|intros k E; discriminate|intros k E; discriminate| |exact I].
+  cbn [back_ok]. pose proof (gs_back _ _ (GS_plain _ p0 Idle Hp0 eq_refl G)) as Hb. cbn [back_ok] in Hb. destruct Hb as [A B].
   rewrite (sn_lst _ _ S). split; [eapply bwdl_ext; [|exact A]; reflexivity|exact B].
 Qed.
 
-Lemma step_E_ld0_mark g it c nx0 :
-  GS g (E_ld0 it c) -> pubn g c -> dl g c = false ->
-  let g' := setn g c (n_del (gnode g c)) in
-  GS g' (E_ldb it c nx0) /\ mono g g'.
+(* erase of a node that is in the list: nothing changes until the record has been built *)
+Lemma step_E_ld0_go g p0 it c nx0 : GS g p0 -> plain p0 = true -> pubn g c -> dl g c = false -> GS g (E_alloc it c nx0).
 Proof.
-  intros G [Hi Hc] Hd g'. destruct Hc as [Hc|Hc]; [|congruence].
+  intros G Hp0 [Hi [Hc|Hc]] Hd; [|congruence]. pose proof (GS_plain _ p0 Idle Hp0 eq_refl G) as G0.
+  eapply GS_sameN; [apply sameN_refl|exact G0|intros k E; discriminate|intros k E; discriminate|exact (gs_back _ _ G0)|].
+  cbn [hold_ok]. auto.
+Qed.
+Lemma GS_retag_hold g p p' : GS g p -> priv_node p = None -> priv_node p' = None -> (forall k, erasing p = Some k -> erasing p' = Some k) ->
+  (back_ok g p -> back_ok g p') -> hold_ok g p' -> GS g p'.
+Proof.
+  intros G Ep Ep' Ee Hb Hh. eapply GS_sameN; [apply sameN_refl|exact G| | |apply Hb; exact (gs_back _ _ G)|exact Hh].
+  - intros k E. congruence.
+  - intros k E. left. apply Ee. exact E.
+Qed.
+(* deleted := true and the load of back *)
+Lemma step_E_ldb g it c nx0 z :
+  GS g (E_ldb it c nx0 z) ->
+  let g' := setn g c (n_del (gnode g c)) in
+  GS g' (E_ldn it c nx0 (bk g c) z) /\ mono g g'.
+Proof.
+  intros G g'. pose proof (gs_hold _ _ G) as Hh. cbn [hold_ok] in Hh. destruct Hh as [Hc Hd].
+  pose proof (gs_nodes _ _ G c Hc) as Hi.
   destruct (set_del_views g c Hi) as (EN & EB & ED & EP). fold g' in EN, EB, ED, EP.
   destruct (nviews_setn g c (n_del (gnode g c)) Hi) as [VI VR VC VH VT VL VM VLo VHi VX]. fold g' in VI, VR, VC, VH, VT, VL, VM, VLo, VHi, VX.
   assert (Hpub : forall k, pubn g k -> pubn g' k).
@@ -999,30 +1017,19 @@ Proof.
   - intros k Hk. rewrite VI in Hk. rewrite VL, ED. destruct (H4 k Hk) as [A|[A|A]]; [auto| |discriminate].
     right. left. destruct (Nat.eqb k c); auto.
   - intros k Hk Hdk. rewrite VL in Hk. rewrite ED in Hdk. destruct (Nat.eqb_spec k c) as [->|]; [reflexivity|].
-    specialize (H5 k Hk Hdk). discriminate.
+    specialize (H5 k Hk Hdk). cbn [erasing] in H5. congruence.
   - intros k m Hk Hm. rewrite EN in Hm. destruct (H6 k m (Hpub' _ Hk) Hm) as [A B]. split; [auto|rewrite !EP; exact B].
   - rewrite VLo, VHi. destruct H7 as [A B]. split; [exact A|]. intros k. rewrite VI, EP. auto.
   - cbn [back_ok] in *. rewrite VL, VT. destruct H8 as [A B]. split; [|exact B]. eapply bwdl_ext; [|exact A]. intros; apply EB.
-  - cbn [hold_ok]. rewrite VL, ED, Nat.eqb_refl. auto.
+  - cbn [hold_ok]. rewrite VL, ED, Nat.eqb_refl. split; [reflexivity|]. destruct (in_split _ _ Hc) as (l1 & l2 & El). exists l1, l2. split; [exact El|].
+    cbn [back_ok] in H8. destruct H8 as [A _]. rewrite El in A.
+    apply bwdl_app in A. destruct A as [_ A]. cbn [bwdl] in A. destruct A as [A _]. rewrite A.
+    unfold last_or. destruct (last_opt l1); reflexivity.
   - rewrite VL, VM. exact H10.
 Qed.
 
-Lemma step_E_ldb g it c nx0 :
-  GS g (E_ldb it c nx0) -> GS g (E_ldn it c nx0 (bk g c)).
-Proof.
-  intros G. pose proof (gs_hold _ _ G) as Hh. cbn [hold_ok] in Hh. destruct Hh as [Hc Hd].
-  eapply GS_sameN; [apply sameN_refl|exact G| | | |].
-  - intros k E. discriminate.
-  - intros k E. left. exact E.
-  - exact (gs_back _ _ G).
-  - cbn [hold_ok]. split; [exact Hd|]. destruct (in_split _ _ Hc) as (l1 & l2 & El). exists l1, l2. split; [exact El|].
-    pose proof (gs_back _ _ G) as Hb. cbn [back_ok] in Hb. destruct Hb as [A _]. rewrite El in A.
-    apply bwdl_app in A. destruct A as [_ A]. cbn [bwdl] in A. destruct A as [A _]. rewrite A.
-    unfold last_or. destruct (last_opt l1); reflexivity.
-Qed.
-
-Lemma step_E_ldn g it c nx0 pv :
-  GS g (E_ldn it c nx0 pv) -> GS g (E_s1 it c nx0 pv (nx g c)).
+Lemma step_E_ldn g it c nx0 pv z :
+  GS g (E_ldn it c nx0 pv z) -> GS g (E_s1 it c nx0 pv (nx g c) z).
 Proof.
   intros G. pose proof (gs_hold _ _ G) as Hh. cbn [hold_ok] in Hh. destruct Hh as (Hd & l1 & l2 & El & Hpv).
   eapply GS_sameN; [apply sameN_refl|exact G| | | |].
@@ -1039,8 +1046,8 @@ Lemma In_last_opt_split l p : last_opt l = Some p -> exists l0, l = l0 ++ [p].
 Proof. apply last_opt_split. Qed.
 
 (* the unlink: g1 is g with the predecessor's next (or m_head) redirected to the successor *)
-Lemma step_E_s1_gen g g1 it c nx0 pv nxt :
-  GS g (E_s1 it c nx0 pv nxt) ->
+Lemma step_E_s1_gen g g1 it c nx0 pv nxt z :
+  GS g (E_s1 it c nx0 pv nxt z) ->
   (forall j, isnode g1 j = isnode g j) -> (forall j, isrec g1 j = isrec g j) ->
   (forall j, bk g1 j = bk g j) -> (forall j, dl g1 j = dl g j) -> (forall j, ps g1 j = ps g j) ->
   lst g1 = lst g -> mlog g1 = mlog g -> lo g1 = lo g -> hi g1 = hi g -> tail g1 = tail g ->
@@ -1048,7 +1055,7 @@ Lemma step_E_s1_gen g g1 it c nx0 pv nxt :
   (forall p, pv = Some p -> nx g1 p = nxt /\ head g1 = head g) ->
   (pv = None -> head g1 = nxt) ->
   let g' := commit g1 (MErase c) in
-  GS g' (E_s2 it c nx0 pv nxt) /\ mono g g'.
+  GS g' (E_s2 it c nx0 pv nxt z) /\ mono g g'.
 Proof.
   intros G VI VR EB ED EP VL VM VLo VHi VT EN EN1 EH g'.
   pose proof (gs_hold _ _ G) as Hh. cbn [hold_ok] in Hh. destruct Hh as (Hd & l1 & l2 & El & Hpv & Hnx).
@@ -1125,8 +1132,8 @@ Proof.
     rewrite VM, VL, fold_apply_app, <- H10. reflexivity.
 Qed.
 
-Lemma step_E_s2_some g it c nx0 pv x p' :
-  GS g (E_s2 it c nx0 pv (Some x)) -> plain p' = true ->
+Lemma step_E_s2_some g it c nx0 pv x z p' :
+  GS g (E_s2 it c nx0 pv (Some x) z) -> plain p' = true ->
   let g' := setn g x (n_back (gnode g x) pv) in
   GS g' p' /\ mono g g'.
 Proof.
@@ -1138,7 +1145,7 @@ Proof.
   destruct (set_back_views g x pv Hix) as (_ & EB & _ & _). fold g' in EB.
   pose proof (gs_nodup _ _ G) as ND. rewrite El in ND. destruct (NoDup_mid _ _ _ ND) as (Hx1 & Hx2 & _).
   split; [|apply mono_sameN; exact S].
-  apply (GS_plain _ (E_alloc it c nx0) p' eq_refl Hp').
+  apply (GS_plain _ (E_ldz it nx0 z) p' eq_refl Hp').
   eapply GS_sameN; [exact S|exact G|intros k E; discriminate|intros k E; discriminate| |exact I].
   cbn [back_ok]. rewrite (sn_lst _ _ S), El. split.
   - apply bwdl_app. split.
@@ -1151,15 +1158,15 @@ Proof.
     destruct (last_opt (x :: r2)) eqn:E; [reflexivity|apply last_opt_none in E; discriminate].
 Qed.
 
-Lemma step_E_s2_none g it c nx0 pv p' :
-  GS g (E_s2 it c nx0 pv None) -> plain p' = true ->
+Lemma step_E_s2_none g it c nx0 pv z p' :
+  GS g (E_s2 it c nx0 pv None z) -> plain p' = true ->
   GS (with_tail g pv) p' /\ mono g (with_tail g pv).
 Proof.
   intros G Hp'. pose proof (gs_back _ _ G) as Hb. cbn [back_ok] in Hb.
   destruct Hb as (Hic & Hdc & Hcl & l1 & l2 & El & Hpv & Hnx & B1 & B2 & Ht).
   destruct l2; [|discriminate]. rewrite app_nil_r in El.
   split; [|apply mono_sameN, sameN_tail].
-  apply (GS_plain _ (E_alloc it c nx0) p' eq_refl Hp').
+  apply (GS_plain _ (E_ldz it nx0 z) p' eq_refl Hp').
   eapply GS_sameN; [apply sameN_tail|exact G|intros k E; discriminate|intros k E; discriminate| |exact I].
   cbn [back_ok]. change (lst (with_tail g pv)) with (lst g). rewrite El. split; [eapply bwdl_ext; [|exact B1]; reflexivity|exact Hpv].
 Qed.
@@ -1343,10 +1350,10 @@ Lemma InvA_holder2 g g' ls t l l' :
   InvA g' (upd ls t l').
 Proof. intros ? ? ? ? ? [? ?] ?. eapply InvA_holder'; eauto. Qed.
 
-Lemma step_E_s1_some g it c nx0 p nxt :
-  GS g (E_s1 it c nx0 (Some p) nxt) ->
+Lemma step_E_s1_some g it c nx0 p nxt z :
+  GS g (E_s1 it c nx0 (Some p) nxt z) ->
   let g' := commit (setn g p (n_next (gnode g p) nxt)) (MErase c) in
-  GS g' (E_s2 it c nx0 (Some p) nxt) /\ mono g g'.
+  GS g' (E_s2 it c nx0 (Some p) nxt z) /\ mono g g'.
 Proof.
   intros G. pose proof (gs_hold _ _ G) as Hh. cbn [hold_ok] in Hh. destruct Hh as (Hd & l1 & l2 & El & Hpv & Hnx).
   assert (Hip : isnode g p = true).
@@ -1358,10 +1365,10 @@ Proof.
   - intros q Hq. inversion Hq; subst q. rewrite EN, Nat.eqb_refl. auto.
   - discriminate.
 Qed.
-Lemma step_E_s1_none g it c nx0 nxt :
-  GS g (E_s1 it c nx0 None nxt) ->
+Lemma step_E_s1_none g it c nx0 nxt z :
+  GS g (E_s1 it c nx0 None nxt z) ->
   let g' := commit (with_head g nxt) (MErase c) in
-  GS g' (E_s2 it c nx0 None nxt) /\ mono g g'.
+  GS g' (E_s2 it c nx0 None nxt z) /\ mono g g'.
 Proof.
   intros G. apply step_E_s1_gen; auto. discriminate.
 Qed.
@@ -1432,7 +1439,7 @@ Proof.
   (* E_alloc: the new record cell *)
   all: try match goal with |- InvA (fst (do_alloc ?gg (BRec drec))) _ =>
          eapply InvA_holder; [exact I|exact Hl|reflexivity|reflexivity|reflexivity
-                             |eapply GS_frame; [apply sameA_alloc_rec|eapply GS_plain; [| |exact G0]; reflexivity]
+                             |eapply GS_frame; [apply sameA_alloc_rec|(eapply GS_retag_hold; [exact G0|reflexivity|reflexivity|intros k0 E0; discriminate E0|intros x; exact x|exact (gs_hold _ _ G0)])]
                              |apply mono_sameA, sameA_alloc_rec|];
          apply thr_ok_intro; cbn [pc_refs priv_rec in_unlock];
          [ intros c1 Hc1; apply (pubn_sameA _ _ _ (sameA_alloc_rec gg drec)); apply T1; apply in_or_app; left; exact Hc1
@@ -1451,6 +1458,10 @@ Proof.
   all: try (assert (pubn g c0) as Pc0 by (apply T1; apply in_or_app; right; left; reflexivity);
             cbn [In o2l] in Hc1; destruct Hc1 as [<-|Hc1]; [exact Pc0|];
             destruct (nnext (gnode g c0)) eqn:En; cbn [o2l In] in Hc1; [destruct Hc1 as [<-|[]]|contradiction];
+            eapply nx_pubn; [exact G0|exact Pc0|exact En]).
+  all: try (assert (pubn g' c0) as Pc0 by (apply T1; apply in_or_app; right; left; reflexivity);
+            cbn [In o2l] in Hc1; destruct Hc1 as [<-|Hc1]; [exact Pc0|];
+            destruct (nnext (gnode g' c0)) eqn:En; cbn [o2l In] in Hc1; [destruct Hc1 as [<-|[]]|contradiction];
             eapply nx_pubn; [exact G0|exact Pc0|exact En]).
   all: try (assert (pubn g c0) as Pc0 by (apply T1; apply in_or_app; right; left; reflexivity);
             destruct (nnext (gnode g c0)) eqn:En; cbn [o2l In] in Hc1; [destruct Hc1 as [<-|[]]|contradiction];
@@ -1473,16 +1484,20 @@ Proof.
   all: try (apply (step_PB_back _ _ _ G0)).
   all: try (apply (step_PB_next _ _ _ G0)).
   all: try (apply (step_PB_tail _ _ G0)).
-  all: try (apply GS_mono_refl; apply (step_E_ldb _ _ _ _ G0)).
-  all: try (apply GS_mono_refl; apply (step_E_ldn _ _ _ _ _ G0)).
+  all: try (apply (step_E_ldb _ _ _ _ _ G0)).
+  all: try (apply GS_mono_refl; apply (step_E_ldn _ _ _ _ _ _ G0)).
+  all: try (match goal with |- GS (fst (do_construct ?gg ?zz (BRec ?rr))) (E_ldb _ _ _ _) /\ _ =>
+              assert (SA : sameA gg (fst (do_construct gg zz (BRec rr)))) by (apply sameA_construct_rec; eauto);
+              split; [eapply GS_frame; [exact SA|(eapply GS_retag_hold; [exact G0|reflexivity|reflexivity|intros k0 E0; discriminate E0|intros x; exact x|exact (gs_hold _ _ G0)])]|apply mono_sameA; exact SA] end).
   all: try (eapply step_E_s2_some; [exact G0|reflexivity]).
   all: try (eapply step_E_s2_none; [exact G0|reflexivity]).
   all: try (eapply GS_mono_sameA; [ | | |exact G0]; [sameA_tac|reflexivity|reflexivity]).
   all: try (assert (pubn g c0) as Pc0 by (apply T1; apply in_or_app; right; left; reflexivity)).
-  all: try match goal with H : ndel (gnode _ _) = true |- _ => destruct (step_E_ld0_noop _ _ _ G0 Pc0 H) as [_ Hn]; apply Hn; reflexivity end.
-  all: try match goal with H : ndel (gnode _ _) = false |- _ => apply (step_E_ld0_mark _ _ _ _ G0 Pc0 H) end.
-  all: try (apply (step_E_s1_some _ _ _ _ _ _ G0)).
-  all: try (apply (step_E_s1_none _ _ _ _ _ G0)).
+  all: try (assert (pubn g' c0) as Pc0 by (apply T1; apply in_or_app; right; left; reflexivity)).
+  all: try match goal with H : ndel (gnode _ _) = true |- _ => destruct (step_E_ld0_noop _ _ _ G0 eq_refl Pc0 H) as [_ Hn]; apply Hn; reflexivity end.
+  all: try match goal with H : ndel (gnode _ _) = false |- _ => apply GS_mono_refl; apply (step_E_ld0_go _ _ _ _ _ G0 eq_refl Pc0 H) end.
+  all: try (apply (step_E_s1_some _ _ _ _ _ _ _ G0)).
+  all: try (apply (step_E_s1_none _ _ _ _ _ _ G0)).
 Qed.
 
 (* ---------- reachable states ---------- *)
@@ -1590,9 +1605,9 @@ Definition wtarget (p : pc) : option nat :=
   match p with
   | P_constr _ n | PF_next n _ | PB_back n _ => Some n
   | PF_back _ old | PB_next _ old => Some old
-  | E_ld0 _ c => Some c
-  | E_s1 _ _ _ (Some p) _ => Some p
-  | E_s2 _ _ _ _ (Some x) => Some x
+  | E_ldb _ c _ _ => Some c
+  | E_s1 _ _ _ (Some p) _ _ => Some p
+  | E_s2 _ _ _ _ (Some x) _ => Some x
   | _ => None
   end.
 Lemma wtarget_isnode g ls t l k : InvA g ls -> nth_error ls t = Some l -> wtarget (at_ l) = Some k -> isnode g k = true.
